@@ -310,6 +310,7 @@ func runMachine(f lib.Flags, res *lib.Result, drv *lib.Driver) {
 	starts := []map[string]string{{}, {"a": "x"}, {"b": "y"}, {"a": "x", "b": "x"}}
 	var maxRecv time.Duration
 	failed := false
+	slow := 0
 	process := func(cases []machineCase) {
 		if failed || len(cases) == 0 {
 			return
@@ -347,6 +348,15 @@ func runMachine(f lib.Flags, res *lib.Result, drv *lib.Driver) {
 			tie.Record(showView(c.Start)+"/"+strings.Join(c.Moves, " "), nrecv >= 2, c, ans[i], code)
 			tie.Count(fmt.Sprintf("inputs=%d", min(nrecv, 8)))
 			c.monitor(mon, obs)
+			if obs.RecvBlock != "" || obs.DrainError != "" || strings.Contains(code, "timeout") {
+				slow++
+				if slow > 8 {
+					// every such run costs seconds: the correspondence is broken beyond doubt, stop here
+					tie.Fail(fmt.Errorf("aborted after %d runs in which the goroutine did not respond within %s (last: %s)", slow, stepTimeout, code))
+					failed = true
+					return
+				}
+			}
 		}
 	}
 	const batch = 4000
